@@ -697,6 +697,34 @@ func c17Run(ctx *core.Ctx, idx int, dotu bool, steps int) core.Result {
 				fail("fid-after-"+op, what+": the fid does not designate the new object: "+e)
 			}
 		}
+		// after a create answered with Rerror the fid still designates the directory it was sent on, and the next
+		// request through it (here: the same name's creation after the obstacle is gone, or a stat) lands there
+		if created != "" && rep.Type == wire.Rerror && fid != 0 && (op == "create-file" || op == "mkdir" || op == "symlink" || op == "link") {
+			dirRel := filepath.Dir(created)
+			st := rw.rpc(&wire.Msg{Type: wire.Tstat, Fid: fid})
+			fi, _ := os.Lstat(filepath.Join(e.root, dirRel))
+			res.Evals++
+			if st == nil || st.Type != wire.Rstat || fi == nil {
+				fail("fid-after-failed-"+op, what+fmt.Sprintf(": stat of the directory fid after the refused create answered %v", st))
+			} else if err := checkStat(&st.Stat, fi, filepath.Base(filepath.Join(e.root, dirRel)), dotu); err != "" {
+				fail("fid-after-failed-"+op, what+": after the refused create the fid no longer designates the directory: "+err)
+			} else {
+				// and a second create through the same fid works in that directory
+				n2 := freeName(dirRel)
+				r2 := rw.rpc(&wire.Msg{Type: wire.Tcreate, Fid: fid, Name: n2, Perm: 0o644, Mode: 1})
+				f2, e2 := os.OpenFile(filepath.Join(twin, dirRel, n2), os.O_WRONLY|os.O_CREATE|os.O_EXCL, 0o644)
+				if f2 != nil {
+					f2.Close()
+				}
+				if r2 == nil || (r2.Type == wire.Rcreate) != (e2 == nil) {
+					fail("create-after-failed-"+op, what+fmt.Sprintf(": a create through the same fid afterwards answered %v, the twin's returned %v", r2, e2))
+				} else if d := sameTree(snapshot(e.root), snapshot(twin), mtimes); d != "" {
+					fail("create-after-failed-"+op, what+": a create through the same fid afterwards did not land in the directory: "+d)
+					_ = os.RemoveAll(twin)
+					_ = copyTree(e.root, twin)
+				}
+			}
+		}
 		if fid != 0 {
 			clunk(fid)
 		}
